@@ -293,7 +293,16 @@ Definition expand_bench (modpath : str) (next : N) (b : bench_decl)
 
 Definition child_modpath (modpath raw : str) : str := modpath ++ s_colons ++ raw.
 
-Fixpoint expand_item (modpath : str) (next : N) (it : pitem) {struct it}
+(** How [module_path!()] spells a module identifier ([spell]): as written, except
+    that a raw identifier loses its "r#" when the name is not a keyword in the
+    crate's edition (edition 2015: try, async, await, dyn).  rustc's behaviour,
+    taken as is. *)
+Definition spell_2015 (raw : str) : str :=
+  let n := strip_raw raw in
+  if str_eqb n [116; 114; 121] || str_eqb n [97; 115; 121; 110; 99] || str_eqb n [97; 119; 97; 105; 116] || str_eqb n [100; 121; 110]
+  then n else raw.
+
+Fixpoint expand_item (spell : str -> str) (modpath : str) (next : N) (it : pitem) {struct it}
   : res (list bench_entry * list group_entry * N) :=
   match it with
   | PBench b => expand_bench modpath next b
@@ -307,7 +316,7 @@ Fixpoint expand_item (modpath : str) (next : N) (it : pitem) {struct it}
                  match l with
                  | [] => Ok ([], [], next)
                  | x :: tl =>
-                     do r1 <- expand_item (child_modpath modpath raw) next x;
+                     do r1 <- expand_item spell (child_modpath modpath (spell raw)) next x;
                      do r2 <- go tl (snd r1);
                      Ok (fst (fst r1) ++ fst (fst r2), snd (fst r1) ++ snd (fst r2), snd r2)
                  end) items next0;
@@ -317,13 +326,13 @@ Fixpoint expand_item (modpath : str) (next : N) (it : pitem) {struct it}
          match l with
          | [] => Ok ([], [], next)
          | x :: tl =>
-             do r1 <- expand_item modpath next x;
+             do r1 <- expand_item spell modpath next x;
              do r2 <- go tl (snd r1);
              Ok (fst (fst r1) ++ fst (fst r2), snd (fst r1) ++ snd (fst r2), snd r2)
          end) items next
   end.
 
 (** A crate: the items of its root module. *)
-Definition expand (crate : str) (items : list pitem) : res (list bench_entry * list group_entry) :=
-  do r <- expand_item crate 0 (PFn items);
+Definition expand (spell : str -> str) (crate : str) (items : list pitem) : res (list bench_entry * list group_entry) :=
+  do r <- expand_item spell crate 0 (PFn items);
   Ok (fst (fst r), snd (fst r)).
